@@ -55,11 +55,27 @@ func runC17(c *Ctx) {
 	c.c17Defaults()
 }
 
+var multiChecked bool
+
 func (c *Ctx) c17ErrorCode() {
+	multiChecked = false
 	R := c.R
-	ec := c.mustFunc("C17.R1", "wire", "ErrorCode")
+	ec := c.errorEmitter() // the function that writes the ErrorResponse frame (ErrorCode or the helper it uses)
 	if ec == nil {
+		R.Fail("C17.R1", "anchor:ErrorResponse-writer", "-", "a function of package wire writes the ErrorResponse frame", "no Writer.Start('E') found")
 		return
+	}
+	if pub := c.P.Func("wire", "ErrorCode"); pub != nil && pub != ec {
+		// ErrorCode hands its own error to the frame writer
+		okPass := false
+		for _, ci := range callsIn(pub, calleeIs(ec)) {
+			for _, a := range ci.Common().Args {
+				if len(pub.Params) > 1 && a == ssa.Value(pub.Params[1]) {
+					okPass = true
+				}
+			}
+		}
+		R.Check(okPass, "C17.R1", "ErrorCode:hands-error-to-frame-writer", c.atFn(pub), "ErrorCode reports exactly the error it was given", "the frame writer receives ErrorCode's err parameter", "ErrorCode does not pass its err parameter to "+fkey(ec))
 	}
 	R.Analysed(fname(ec))
 	// enumerate the leaf fields of errors.Error
@@ -539,6 +555,31 @@ func (c *Ctx) c17Decorators() {
 				}
 			}
 			rec = cont
+		}
+		if !multiChecked {
+			multiChecked = true
+			// fmt.Errorf with several %w and errors.Join produce wrappers whose Unwrap returns a list; errors.Unwrap
+			// returns nil for them, so a walk by errors.Unwrap stops there
+			tree := false
+			for _, ci := range core.Calls(getter) {
+				if core.FuncIs(core.StaticCallee(ci), "errors", "As") {
+					tree = true
+				}
+			}
+			for _, b := range getter.Blocks {
+				for _, in := range b.Instrs {
+					if ta, ok := in.(*ssa.TypeAssert); ok {
+						if it, ok := ta.AssertedType.Underlying().(*types.Interface); ok && it.NumMethods() == 1 && it.Method(0).Name() == "Unwrap" {
+							if sig, ok := it.Method(0).Type().(*types.Signature); ok && sig.Results().Len() == 1 {
+								if _, isSlice := sig.Results().At(0).Type().Underlying().(*types.Slice); isSlice {
+									tree = true
+								}
+							}
+						}
+					}
+				}
+			}
+			R.Check(tree, "C17.R2", "getters:multi-error-wrappers-traversed", c.atFn(getter), "decorations are found under every kind of ordinary wrapping, including wrappers that hold several errors (fmt.Errorf with two %w, errors.Join)", "the getters use errors.As or descend into Unwrap() []error", "the getters walk the chain with errors.Unwrap only, which returns nil for a wrapper with Unwrap() []error: every decoration below fmt.Errorf(\"%w: %w\", ..) or errors.Join(..) is lost and the ErrorResponse falls back to ERROR / XXUUU")
 		}
 		R.Check(rec, "C17.R2", gk+":recurses-on-unwrapped", c.atFn(getter), "otherwise the getter looks the decoration up in errors.Unwrap(err)", "calls itself on the unwrapped error, or loops with err = errors.Unwrap(err) while err != nil", "the getter neither recurses on errors.Unwrap(err) nor iterates over the chain (accepted idioms: assert + Unwrap recursion; for err != nil { assert; err = Unwrap(err) })")
 		// Flatten uses the getter on its parameter
